@@ -222,6 +222,14 @@ def s_col_broadcast(m, lab):
     g = m - d[:, numpy.newaxis]
     return g, g[0, 0], (g[0] < 0).sum()
 
+def s_min_out(a, m):
+    r = numpy.minimum(a, m, out=m)
+    return m, r is m, m.sum()
+
+def s_clip_out(v):
+    numpy.clip(v, None, 2, out=v)
+    return v, numpy.clip(v, 1, None)
+
 def s_varargs(a, b):
     def pack(first, *rest):
         return first, len(rest), rest
@@ -428,6 +436,8 @@ def inputs():
         "s_nan_compare": [(A(numpy.nan, 1),), (A(0, 1),)],
         "s_col_broadcast": [(numpy.array([[1., 4., 2.], [0., 3., 5.]]), A(1, 0, dt=int)), (numpy.array([[2., 1.]]), A(1, dt=int))],
         "s_varargs": [(1, 2)],
+        "s_min_out": [(numpy.array([[1., 5., 2.]]), numpy.array([[3., 3., 3.], [0., 9., 1.]])), (A(1, 5, 2), numpy.array([[3., 3., 3.], [0., 9., 1.]]))],
+        "s_clip_out": [(A(0, 3, 2, 7, dt=int),), (A(0.5, 3.5),)],
         "s_int_of_float": [(A(2.0, 2.7, -2.7),)],
         "s_argmax_rows": [(numpy.array([[0., 1., 0.], [2., 2., 1.], [0., 0., 0.]]),)],
         "s_isclose": [(1.0, 1.0 + 1e-9), (1e-9, 0.0), (1e-7, 0.0), (5.0, 6.0)],
